@@ -62,6 +62,50 @@ CHECKS["C12"] = dict(
     design_ref="DESIGN.md section 6, C12",
 )
 
+CHECKS["C01"] = dict(
+    category="other",
+    technique="call-graph SCC depth-guard rule over the per-instance call graph; MIR dominance/provenance rules for every documented panic site with an audited ledger; origin classification of allocation sizes; guarded-divisor rule; loop progress witnesses",
+    text=("Static decision of five structural clauses of C01 over the whole crate: bounded recursion on every call-graph cycle, explicit panic "
+          "discipline (every unwrap/expect/panic!/assert!/unreachable!/range slice/std argument-panic site is discharged by a dominating check, "
+          "audited with a written reason, or a violation), allocation sizes bounded by the input, guarded division, loop progress. Implicit "
+          "panics (element indexing, add/mul overflow), unsigned subtraction, running time of terminating loops and decompression size are not decided."),
+    design_ref="DESIGN.md section 6, C01",
+)
+CHECKS["C10"] = dict(
+    category="other",
+    technique="MIR provenance rule on the member index (copies only, total accessors only), closure-family comparison discipline of the tag finders, sibling agreement of FontTableProvider impls, kernel reading of the WOFF entry reader, panic ledger rule on the container layer",
+    text=("Static decision of the selection discipline of the container layer: a member index reaches a total accessor unmodified, tables are "
+          "selected by tag equality inside Iterator::find (order independent), has_table/table_data agree on their selector, the WOFF reader "
+          "inflates exactly under comp_length != orig_length and reads (offset, comp_length), and no explicit panic is left in the layer — so an "
+          "absent table or out-of-range member yields None/Err. Byte-for-byte equality of table data is not decided."),
+    design_ref="DESIGN.md section 6, C10",
+)
+CHECKS["C13"] = dict(
+    category="other",
+    technique="MIR dominance rule for the length test, reaching-definitions must-pass-through of clamp(-1,1) on the pushed value, provenance of clamp bounds, guarded-divisor rule, ADT field visibility and constructor audit",
+    text=("Static decision of the structural clauses of C13: wrong-length tuples are rejected before anything is produced, every value pushed to "
+          "the result is the direct result of clamp(-1, 1), the font-supplied clamp bounds are ordered by construction, fixed-point division guards a "
+          "zero divisor, and tuples cannot be forged. The numeric clauses (exact -1/0/+1, accuracy, monotonicity) are not decided."),
+    design_ref="DESIGN.md section 6, C13",
+)
+CHECKS["C16"] = dict(
+    category="other",
+    technique="call-graph SCC depth-guard rule on the glyf outline visitor (all OutlineSink instantiations); panic ledger rule on the outline module",
+    text=("Static decision of the clause 'to a bounded nesting depth' (monotone depth counter, strict step and dominating bound test on every "
+          "cycle through visit_outline/visit_composite_glyph_outline) and of the explicit-panic discipline of the glyf outline code. Contour "
+          "walking, implied points, flag/coordinate decoding and transforms are not decided."),
+    design_ref="DESIGN.md section 6, C16",
+)
+CHECKS["C17"] = dict(
+    category="other",
+    technique="effect analysis: may-alias propagation of the character buffer's mutable capability through every callee reachable from preprocess_text, whitelist of stable permutation primitives and documented transformations, split-predicate reading from promoted constants, dispatch exhaustiveness",
+    text=("Static decision of C17 as an effect discipline: every operation that can mutate the text buffer, transitively from preprocess_text, is a "
+          "stable permutation primitive (for Default/Syriac/Arabic confined to a run delimited by NotReordered characters, on a &mut [char]) or "
+          "one of the documented decompositions of its function fed by its named table or a constant; the dispatch lists every ScriptType. That "
+          "the comparator realises AMTRA and that the decomposition tables are the documented ones is not decided."),
+    design_ref="DESIGN.md section 6, C17",
+)
+
 NOT_APPLICABLE = {
     "C05": "every clause is a numeric relation between table contents and output values; the structural parts (termination, borrow and panic discipline, attachment index validation) are decided under C02; no GPOS-specific clause is visible in the shape of the code",
 }
